@@ -3,6 +3,7 @@
 //! Build: RUSTFLAGS="--cfg mimium_verif" CARGO_TARGET_DIR=/verif/.cache/target-mmdump cargo build --offline
 mod common;
 mod compile;
+mod ffi;
 mod replay;
 mod statetree;
 
@@ -10,7 +11,7 @@ use std::io::Write;
 
 fn usage() -> ! {
     eprintln!(
-        "usage:\n  mmdump compile <file.mmm> [--scheduler]\n  mmdump replay [--in-process] <spec.json|->\n  mmdump statetree <spec.json>"
+        "usage:\n  mmdump compile <file.mmm> [--scheduler]\n  mmdump replay [--in-process] <spec.json|->\n  mmdump statetree <spec.json>\n  mmdump ffi <spec.json|->"
     );
     std::process::exit(2);
 }
@@ -44,6 +45,7 @@ fn main() {
             args.get(2).map(String::as_str).unwrap_or_else(|| usage()),
         ),
         Some("statetree") => statetree::run(&read_spec(args.get(1))),
+        Some("ffi") => ffi::run(&read_spec(args.get(1))),
         _ => usage(),
     };
     let text = serde_json::to_string(&value).expect("json serialisation");
